@@ -129,6 +129,12 @@ def classify(diag, text, genmap, byte_of_char=None):
     """Return dict(kind, frag, site, label, props, detail) for an error-level diagnostic."""
     msg = diag.message
     p = diag.primary()
+    # a contract that lives in another file (vstd's trait specification for `Iterator::next`, say) puts the primary span there: offsets are only
+    # meaningful in the generated file, so the span that points into it ("at the end of the function body" / "at this exit") locates the failure
+    foreign = lambda sp: any(t in (sp.get("file_name") or "") for t in ("std_specs/", "vstd/", "/opt/veriftools/")) or (sp.get("file_name") or "").startswith("vstd")
+    if p is not None and foreign(p):
+        own = [sp for sp in diag.spans if not foreign(sp)]
+        p = own[0] if own else None
     res = {"message": msg, "kind": "other", "frag": None, "label": None, "label_props": None,
            "site": None, "gen_line": p["line_start"] if p else None, "orig_text": None}
     if p is None:
